@@ -508,8 +508,10 @@ macro_rules! impl_cache_processor {
                             ctr += 1;
                             ctr < self.num_to_keep - 1
                         });
-                        self.start_ts.insert(key, Time::now());
                     }
+                    // Every admitted key is tracked (only the pruning above is conditional),
+                    // so that its eviction leaves a life-expectancy sample.
+                    self.start_ts.insert(key, Time::now());
                 }
             }
 
